@@ -42,6 +42,46 @@ class Infra(Exception):
     """ Trouble in the machinery itself: exit status 2, never a VIOLATION. """
 
 
+class CaseTimeout(BaseException):
+    """ The code under test did not come back within the per-case limit.
+    BaseException so that searchkit's own `except Exception` cannot swallow it. """
+
+
+import contextlib  # noqa: E402
+import signal  # noqa: E402
+
+
+@contextlib.contextmanager
+def time_limit(seconds):
+    """ SIGALRM based watchdog around one call into the code under test """
+    def handler(_sig, _frm):
+        raise CaseTimeout()
+    old = signal.signal(signal.SIGALRM, handler)
+    signal.alarm(int(seconds))
+    try:
+        yield
+    finally:
+        signal.alarm(0)
+        signal.signal(signal.SIGALRM, old)
+
+
+def kill_children():
+    """ after a hang: remove whatever worker / manager processes the run left behind """
+    try:
+        import psutil  # pylint: disable=import-outside-toplevel
+        for ch in psutil.Process().children(recursive=True):
+            try:
+                ch.kill()
+            except psutil.Error:
+                pass
+    except ImportError:
+        pass
+
+
+SINGLE_LIMIT = int(os.environ.get('VERIF_CASE_LIMIT', '30'))
+MULTI_LIMIT = int(os.environ.get('VERIF_MP_CASE_LIMIT', '60'))
+
+
 def import_searchkit():
     """ Import searchkit from REPO (never a copy) and return the package. """
     sys.dont_write_bytecode = True
